@@ -148,6 +148,10 @@ class Interval:
     def inverse(self) -> "Interval":
         """Inverse of an interval."""
         from integral.poly import normalize_constant
+        # 1 / x is unbounded in both directions if zero lies in the interior.
+        if (self.start == expr.NEG_INF or eval_expr(self.start) < 0) and \
+           (self.end == expr.POS_INF or eval_expr(self.end) > 0):
+            return Interval.open(expr.NEG_INF, expr.POS_INF)
         if self.end == expr.POS_INF:
             start = expr.Const(0)
             left_open = True
